@@ -1604,7 +1604,7 @@ func record(d drawn) {
 func TestTrimAPI(t *testing.T) {
 	rapid.Check(t, func(rt *rapid.T) {
 		d := genCase(rt, "api")
-		d.c.Compile = rapid.IntRange(0, 49).Draw(rt, "compile") == 0 && os.Getenv("C16_NOCOMPILE") == ""
+		d.c.Compile = rapid.IntRange(0, 49).Draw(rt, "compile") == 23 && os.Getenv("C16_NOCOMPILE") == ""
 		record(d)
 		if err := judge(d.c); err != nil {
 			vt.Fail(rt, prop, "trim", d.c, "%v", err)
@@ -1618,7 +1618,7 @@ func TestTrimAPI(t *testing.T) {
 const binCap = 150
 
 func TestTrimBinary(t *testing.T) {
-	if f := flag.Lookup("rapid.checks"); f != nil && os.Getenv("C16_BIN_NOCAP") == "" {
+	if f := flag.Lookup("rapid.checks"); f != nil && os.Getenv("C16_BIN_NOCAP") == "" && !vt.Thorough() {
 		if n, err := strconv.Atoi(f.Value.String()); err == nil && n > binCap {
 			flag.Set("rapid.checks", strconv.Itoa(binCap))
 			defer flag.Set("rapid.checks", strconv.Itoa(n))
@@ -1626,7 +1626,7 @@ func TestTrimBinary(t *testing.T) {
 	}
 	rapid.Check(t, func(rt *rapid.T) {
 		d := genCase(rt, "bin")
-		d.c.Compile = rapid.IntRange(0, 5).Draw(rt, "compile") == 0
+		d.c.Compile = rapid.IntRange(0, 5).Draw(rt, "compile") == 3
 		record(d)
 		if err := judge(d.c); err != nil {
 			vt.Fail(rt, prop, "trimbin", d.c, "%v", err)
